@@ -61,7 +61,9 @@ func (a *ConstFuncParamAnnotator) VisitFuncDecl(decl *ast.FuncDecl) ast.VisitRes
 	}
 
 	// if the function is extern, we have to assume that the parameters are not const
-	if ast.IsExternFunc(decl) {
+	// the same goes for functions that are visible to extern code, as C callers
+	// always pass ownership of the arguments to the callee
+	if ast.IsExternFunc(decl) || decl.IsExternVisible {
 		attachement := ConstFuncParamMeta{
 			IsConst: make(map[string]bool, len(decl.Parameters)),
 		}
